@@ -25,7 +25,12 @@ def main():
                                                   runners=getattr(mod, "RUNNERS", ()),
                                                   facts=getattr(mod, "FACTS", ("tables", "parser"))))
     runner_ok = all(o.ok for o in chk.obligations if o.kind == "build")
-    mod.run(chk, runner_ok)
+    try:
+        mod.run(chk, runner_ok)
+    except Exception:  # noqa: a crashing suite is a broken obligation, never a silent pass
+        import traceback
+        chk.obligations.append(common.Obligation("harness suites ran to completion", "harness", False,
+                                                 traceback.format_exc()[-1500:]))
     sys.exit(chk.finish(level="proof", rule=getattr(mod, "RULE", "")))
 
 
